@@ -220,7 +220,9 @@ pub fn main_with(all: &[&[&'static VTable]]) {
         for prop in &args.props {
             // marker first: an abort inside the case is attributed to it
             std::fs::write(&marker_path, format!("{} {}\n", vt.id, prop)).expect("marker");
-            let rep = check_case(vt, prop, &args.budget, args.seed);
+            let t0 = std::time::Instant::now();
+            let mut rep = check_case(vt, prop, &args.budget, args.seed);
+            rep.wall_ms = t0.elapsed().as_millis() as u64;
             let mut line = rep.to_json();
             line.push('\n');
             report.write_all(line.as_bytes()).expect("write report");
